@@ -47,6 +47,9 @@ def _cases(draw):
     return {"start": iso(t0), "dt": draw(st.sampled_from([30, 60, 300, 225, 675])), "n": n, "extras": draw(st.integers(0, 5)), "gaps": gaps,
             "missing_agent": draw(st.sampled_from([None, None, None, TGT[1]])), "sensors_imported": draw(st.booleans()), "targets_realtime": draw(st.sampled_from([False, False, True])),
             "obs_imported": draw(st.booleans()), "obs_both": draw(st.sampled_from([False, False, True])),
+            # Julian dates in the importer: as the producing run accumulated them (start + k*dt/86400), or the calendar conversion of
+            # each epoch's timestamp (what an external tool or ImporterDatabase.loadEphemerisFile stores) - one ulp apart for ~30%
+            "jd_mode": draw(st.sampled_from(["as_produced", "calendar", "calendar"])),
             # the importing scenario may split the same agents over two tasking engines (each sensor/target pair of the source
             # run stays inside one engine)
             "two_engines": draw(st.sampled_from([False, False, "same_split", "split_only_importing", "shared_target"]))}
@@ -108,6 +111,20 @@ def importer(c, rec):
         con = sqlite3.connect(imp)
         cur = con.cursor()
         epochs = cur.execute("select julian_date, timestampISO from epochs order by julian_date").fetchall()
+        if c.get("jd_mode") == "calendar":
+            tables = [r[0] for r in cur.execute("select name from sqlite_master where type = 'table'").fetchall()]
+            with_jd = [t for t in tables if any(col[1] == "julian_date" for col in cur.execute(f"pragma table_info({t})").fetchall())]
+            cur.execute("pragma foreign_keys = off")
+            moved = 0
+            for jd, ts in epochs:
+                new_jd = float(datetimeToJulianDate(parse(ts)))
+                if new_jd != jd:
+                    moved += 1
+                    for t in with_jd:
+                        cur.execute(f"update {t} set julian_date = ? where julian_date = ?", (new_jd, jd))
+            con.commit()
+            rec.label("importer_julian_dates:calendar" + (":some_differ_from_the_clock" if moved else ":all_equal_to_the_clock"))
+            epochs = cur.execute("select julian_date, timestampISO from epochs order by julian_date").fetchall()
         jd_of = {int(round((parse(ts) - t0).total_seconds() / dt)): jd for jd, ts in epochs}
         for k in range(c["extras"]):
             aid = 99001 + k
@@ -195,6 +212,20 @@ def importer(c, rec):
                         raise Violation("imported_state", f"step {k}: agent {aid} state {got.tolist()} != importer record {record[(aid, k)].tolist()}")
                     if abs(float(ag.time) - k * dt) > 1e-3:
                         raise Violation("imported_time", f"step {k}: imported agent {aid} is at scenario time {float(ag.time)!r}, step epoch is {k * dt}")
+                    if aid in SEN:
+                        # what a sensing agent derives from its state (Earth-fixed position, used for az/el and masks) belongs to the same epoch
+                        from resonaate.physics.transforms.methods import eci2ecef
+
+                        want_ecef = eci2ecef(got, t0 + timedelta(seconds=k * dt))
+                        off = float(np.linalg.norm(np.asarray(ag.ecef_state, dtype=float)[:3] - want_ecef[:3]))
+                        rec.err("imported_sensor_ecef_km", off)
+                        if off > 1e-3:
+                            raise Violation("imported_sensor_ecef", f"step {k}: imported sensor {aid} exposes an Earth-fixed position {off:.3f} km away from its imported state converted at the step epoch (dt={dt})")
+                # the step can be written out: the rows of imported agents refer to the epoch the clock recorded
+                try:
+                    sc.saveDatabaseOutput()
+                except Exception as err:  # noqa: BLE001
+                    raise Violation("imported_step_not_storable", f"step {k} (dt={dt}, start {c['start']}, importer Julian dates {c.get('jd_mode', 'as_produced')}): writing the step failed with {type(err).__name__}: {str(err)[:200]}")
                 if c["obs_imported"]:
                     want = sorted(p for p in obs_rows.get(k, []) if p[1] in TGT)
                     got = sorted(p for tid, lst in fed.get(k, {}).items() for p in lst)
